@@ -91,6 +91,7 @@ type Engine struct {
 	choices      []int
 	mapOrder     func(m *MapVal, snap []*mapEntry) []*mapEntry
 	gob          *gobState
+	http         *httpModel
 	hashConcLens map[int]bool
 	hashSymLens  map[int]bool
 	hashAlwaysUF bool
@@ -169,6 +170,7 @@ func (e *Engine) resetPath() {
 	e.choices = nil
 	e.mapOrder = nil
 	e.gob = nil
+	e.http = nil
 	e.hashConcLens = map[int]bool{}
 	e.hashSymLens = map[int]bool{}
 	e.hashApps = nil
